@@ -1,0 +1,41 @@
+// Copyright 2020-2025 Buf Technologies, Inc.
+//
+// Licensed under the Apache License, Version 2.0 (the "License");
+// you may not use this file except in compliance with the License.
+// You may obtain a copy of the License at
+//
+//      http://www.apache.org/licenses/LICENSE-2.0
+//
+// Unless required by applicable law or agreed to in writing, software
+// distributed under the License is distributed on an "AS IS" BASIS,
+// WITHOUT WARRANTIES OR CONDITIONS OF ANY KIND, either express or implied.
+// See the License for the specific language governing permissions and
+// limitations under the License.
+
+//go:build verif
+
+package bufcli
+
+import "github.com/bufbuild/buf/private/bufpkg/bufmodule"
+
+// VerifModuleDataDelegate, when set, stands in for the registry behind the module cache.
+var VerifModuleDataDelegate bufmodule.ModuleDataProvider
+
+// VerifCommitDelegate, when set, stands in for the registry behind the commit cache.
+var VerifCommitDelegate bufmodule.CommitProvider
+
+// verifModuleDataDelegate returns the provider the module cache delegates to.
+func verifModuleDataDelegate(delegate bufmodule.ModuleDataProvider) bufmodule.ModuleDataProvider {
+	if VerifModuleDataDelegate != nil {
+		return VerifModuleDataDelegate
+	}
+	return delegate
+}
+
+// verifCommitDelegate returns the provider the commit cache delegates to.
+func verifCommitDelegate(delegate bufmodule.CommitProvider) bufmodule.CommitProvider {
+	if VerifCommitDelegate != nil {
+		return VerifCommitDelegate
+	}
+	return delegate
+}
